@@ -204,6 +204,68 @@ def run(F, R):
     R.check(okd, "R12.4", "prepare_request:depth-walk-before-directive-walk", prs[0].where() if prs else "-", "check_recursive_depth dominates check_max_directives",
             "check_max_directives (which has no depth bound of its own) can run before the recursion-depth check")
 
+    R.rule("R12.5", "the parser's selection-set budget is spent on every nesting construct: each call of parse_selection_set made from a builder that receives a "
+                    "remaining_depth parameter (parse_field, parse_inline_fragment — the constructs that can nest) passes `remaining_depth - 1` computed behind the "
+                    "`== 0` test; only the document-level entry points pass the constant MAX_RECURSION_DEPTH")
+    from common import const_eval as _ce, comparisons
+    n5 = 0
+    pss = r"async_graphql_parser::parse::executable::parse_selection_set$"
+    def is_rd(x, op, depth=0):
+        """operand is (a copy of) the remaining_depth parameter / captured variable"""
+        if op[0] not in ("c", "m") or depth > 6:
+            return False
+        pl = op[1]
+        if any(isinstance(f, str) and f.lstrip(".^*") == "remaining_depth" for f in pl[1:]):
+            return True
+        if len(pl) == 1 and x.local_name(pl[0]) == "remaining_depth":
+            return True
+        if len(pl) == 1:
+            for _bb, st in x.defs_of_local(pl[0]):
+                if st[1][0] == "use" and is_rd(x, st[1][1], depth + 1):
+                    return True
+        return False
+
+    for top in F.find(r"^async_graphql_parser::parse::executable::parse_\w+$", kind="fn"):
+        has_budget = "remaining_depth" in [n for n, p_ in top.vars]
+        for b in F.with_nested(top):
+            for c in b.calls_to(pss):
+                n5 += 1
+                arg = c.args[2]
+                key = "%s->parse_selection_set" % top.name
+                if not has_budget:
+                    k = _ce(b, arg)
+                    R.check(k is not None, "R12.5", "budget:" + key, c.where(), "document-level entry passes the constant %s" % k,
+                            "a document-level builder passes a non-constant budget")
+                    continue
+                dec = False
+                src = None
+                tested = False
+                if arg[0] in ("c", "m"):
+                    for bb, st in b.defs_of_local(arg[1][0]):
+                        rr = st[1]
+                        cand = []
+                        if rr[0] == "use" and rr[1][0] in ("c", "m") and len(rr[1][1]) == 2 and rr[1][1][1] == ".0":
+                            cand = [s2[1] for _, s2 in b.defs_of_local(rr[1][1][0])]
+                        elif rr[0] == "bin":
+                            cand = [rr]
+                        for r2 in cand:
+                            if r2[0] == "bin" and r2[1].startswith("Sub") and _ce(b, r2[3]) == 1 and is_rd(b, r2[2]):
+                                dec = True
+                                src = r2[2]
+                if dec:
+                    # `remaining_depth == 0` must send control away from this call
+                    for (cbb, op_, a_, b_, d_, tt, ft) in comparisons(b):
+                        if tt is None or op_ not in ("Eq", "Ne"):
+                            continue
+                        if (is_rd(b, a_) and _ce(b, b_) == 0) or (is_rd(b, b_) and _ce(b, a_) == 0):
+                            rej = tt if op_ == "Eq" else ft
+                            if b.dominates(cbb, c.bb) and c.bb not in b.reachable(rej, avoid=[cbb]):
+                                tested = True
+                R.check(dec and tested, "R12.5", "budget:" + key, c.where(), "passes remaining_depth - 1 behind the `== 0` rejection",
+                        "%s hands its selection set the %s budget: nesting through this construct is not counted against the recursion limit, so arbitrarily deep documents "
+                        "reach the recursive builders" % (top.name, "unchanged" if not dec else "untested"))
+    R.floor("R12.5", "parse_selection_set call sites", n5, 5)
+
     R.rule("R12.3", "the recursion check precedes validation (= C11 R11.2)")
     prep = F.one(r"async_graphql::schema::prepare_request::\{closure#0\}$")
     pq = prep.calls_to(r"extensions::\{impl#\d+\}::parse_query$")
